@@ -5,5 +5,5 @@ CONSTANTS
   Horizon = 40
   GenLen = 0
 VIEW ViewExh
-INVARIANTS TypeOK HistBelow CurrentPresent CurrentValid CurrentFresh GetOnlyValid IdsUnique CookieLifetime SealedByCurrent
-PROPERTIES IdsIncreasing ACurrentValid ACurrentFresh AGetOnlyValid AIdsUnique ACookieLifetime
+INVARIANTS TypeOK HistBelow CurrentPresent CurrentValid CurrentFresh GetOnlyValid IdsUnique CookieLifetime CookieUsable CarrierFits SealedByCurrent
+PROPERTIES IdsIncreasing ACurrentValid ACurrentFresh AGetOnlyValid AIdsUnique ACookieLifetime ACookieUsable
